@@ -625,7 +625,11 @@ impl Session {
         #[cfg(feature = "rdf")]
         self.rdf_store.commit_tx(tx_id);
 
-        self.tx_manager.commit(tx_id).map(|_| ())
+        let commit_epoch = self.tx_manager.commit(tx_id)?;
+        // Keep the store's epoch in step with the transaction manager: versions are
+        // stamped with the manager's epochs, and the store reads at its own.
+        self.store.advance_epoch_to(commit_epoch);
+        Ok(())
     }
 
     /// Aborts the current transaction.
